@@ -845,7 +845,8 @@ def gen_sexed_sample(rng, sex, hap, with_y, with_w, sd, nx, style, tier):
 
 
 def shift_oracle(ck, rows, hd, hw, hap, is_xx, build, case, guessed_from=None):
-    """shift_xx: X bins move by -1 (female, male reference), +1 (male, female reference), else not; others never"""
+    """shift_xx: X bins -- outside PAR1X/PAR2X when a PAR build is given, those already sit at the autosomal level --
+    move by -1 (female, male reference), +1 (male, female reference), else not; others never"""
     cna = mk_cna(rows, hd, hw)
     snap = [float(r[4]) for r in rows]
     out = cna.shift_xx(hap, is_xx, build)
@@ -853,9 +854,11 @@ def shift_oracle(ck, rows, hd, hw, hap, is_xx, build, case, guessed_from=None):
     xl, _ = py_labels(rows)
     xx = guessed_from if is_xx is None else is_xx
     delta = (-1 if (xx and hap) else (1 if (not xx and not hap) else 0))
-    exp = [float(r[4] + (delta if r[0] == xl else 0)) for r in rows]
+    def moved(r):
+        return r[0] == xl and not (build is not None and py_in_par(build, ('PAR1X', 'PAR2X'), r[1], r[2]))
+    exp = [float(r[4] + (delta if moved(r) else 0)) for r in rows]
     if code != exp:
-        ck.violation('shift_xx does not move exactly the X bins by %+d' % delta, case, code=code, expected=exp, clause='C15_shift_xx')
+        ck.violation('shift_xx does not move exactly the (non-PAR) X bins by %+d' % delta, case, code=code, expected=exp, clause='C15_shift_xx')
     if [float(x) for x in cna.data['log2'].values] != snap:
         ck.violation('shift_xx changed its input', case, clause='C15_shift_xx')
     return code
@@ -871,7 +874,7 @@ def check_sex(ck):
     def add_shift(rows, hd, hw, hap, is_xx, build, case, guess=None):
         code = shift_oracle(ck, rows, hd, hw, hap, is_xx, build, case, guessed_from=guess)
         mxx = is_xx if is_xx is not None else guess
-        shift_reqs.append([hap, mxx, model_bins(rows, hd, hw)])
+        shift_reqs.append([hap, mxx, build, model_bins(rows, hd, hw)])
         shift_codes.append(code)
         shift_cases.append(case)
 
@@ -893,6 +896,19 @@ def check_sex(ck):
                         if any(x != 0 for x in xs):
                             ck.violation('shift_xx leaves a correctly sexed noise-free X off the autosomal level', case,
                                          code=[float(x) for x in xs[:5]], expected=0, clause='C15_shift_xx')
+                        # the same sample on a PAR build: its PAR-X bins sit at the autosomal level already and
+                        # must stay there (defect repaired in dff7a3e), the rest of X must come to it
+                        build = rng.choice(['grch37', 'grch38', 'GRCh38'])
+                        pre = 'chr' if style == 'chr' else ''
+                        prow = [(pre + 'X', s, e, 'g', F(0), F(10), F(1)) for (s, e) in x_positions(rng, build, 4)
+                                if py_in_par(build, ('PAR1X', 'PAR2X'), s, e)]
+                        rows2 = rows + prow
+                        case = {'kind': 'shift_xx', 'rows': case_rows(rows2), 'has_weight': with_w, 'hap': hap, 'is_xx': sex == 'f', 'build': build}
+                        add_shift(rows2, True, with_w, hap, sex == 'f', build, case)
+                        xs = [F(c) for c, r in zip(shift_codes[-1], rows2) if r[0] == xl]
+                        if any(x != 0 for x in xs):
+                            ck.violation('shift_xx with a PAR build leaves chrX (PAR or not) off the autosomal level', case,
+                                         code=[float(x) for x in xs[-5:]], expected=0, clause='C15_shift_xx')
     # noisy samples of the quantifier
     for i in range(n_samples):
         sex = rng.choice('mf')
@@ -1037,7 +1053,7 @@ def run_case(ck, c, cbatch, sbatch):
             guess = mk_cna(rows, hd, hw).guess_xx(c['hap'], c.get('build'), verbose=False)
             guess = None if guess is None else bool(guess)
         code = shift_oracle(ck, rows, hd, hw, c['hap'], c['is_xx'], c.get('build'), c, guessed_from=guess)
-        m = vlib.model_call('c15_shift_xx', [c['hap'], c['is_xx'] if c['is_xx'] is not None else guess, model_bins(rows, hd, hw)])
+        m = vlib.model_call('c15_shift_xx', [c['hap'], c['is_xx'] if c['is_xx'] is not None else guess, c.get('build'), model_bins(rows, hd, hw)])
         ck.count(c, nontrivial=True, cls='corpus:shift_xx')
         if isinstance(m, Err) or [float(x) for x in m] != code:
             ck.tie_break('shift_xx: code and model differ', c, code=code, model=vlib.jsonable(m))
